@@ -14,10 +14,11 @@
 (***************************************************************************)
 EXTENDS Lifecycle, Json
 
-CONSTANTS Family,     \* "event1" | "event2" | "raw" | "rawevent" | "join"
+CONSTANTS Family,     \* "event1" | "event2" | "event2x" | "raw" | "rawevent" | "join"
           Versions,   \* room versions to enumerate
           TypesC,     \* subject types to enumerate
-          Depth,      \* "core" | "full" | "extra" | "edge" | "none" (only the well-formed subject): class sets
+          Depth,      \* "core" | "full" | "extra" | "edge" | "none" (only the well-formed subject): class sets;
+                      \* "xshape": the room ID has the shape of the other family of room versions (CrossShapeClasses)
           FieldSet,   \* "core": identifier / structure / content fields only; "edge": those plus numbers, signatures,
                       \* pseudo-ID keys, spellings and a few duplicated keys; "full": every field (few duplicated
                       \* keys); "all": every field and every duplicated key; "sig": the signatures object
@@ -50,6 +51,20 @@ HeavyEdge == {"VerifySignatures", "AuthCheck:provider", "Resolve:new:bare", "Res
 HeavyMid11 == {"VerifySignatures", "AuthCheck:event", "AuthCheck:provider", "AddToProvider", "Resolve:new:both", "Resolve:old:both",
                "Resolve:direct:both", "Resolve:topo_auth:all", "Resolve:checkstate:state", "Resolve:sendjoin:auth", "Resolve:load:all"}
 Heavy2 == {"AuthCheck:event", "Resolve:new:both"}
+\* the stages a remote event goes through after parsing, the auth check of the event ITSELF first (a create event is
+\* judged by createEventAllowed there), then the same check reached through the auth chain, a state response, a
+\* send_join answer, the loaders, state resolution (every algorithm and role) and the handlers
+HeavyShape == {"AuthCheck:event", "AuthCheck:provider", "AddToProvider", "VerifySignatures", "Resolve:authchain:all",
+               "Resolve:checkstate:state", "Resolve:checkstate:auth", "Resolve:sendjoin:auth", "Resolve:load:all", "Resolve:backfill:all",
+               "Resolve:new:both", "Resolve:old:both", "Resolve:direct:both", "Resolve:new:bare", "Resolve:linearise:state",
+               "Resolve:topo_auth:all", "Handle:Invite", "Handle:SendJoin", "Handle:MakeJoin", "Handle:MakeLeave", "Perform:Invite",
+               "AuthCheck:event@qnil", "AuthCheck:event@qerr", "Resolve:authchain:all@pnil"}
+HeavyShapeAfter == {"AuthCheck:event", "Resolve:authchain:all", "Resolve:new:both"}
+MutsShape == {"Redact", "Sign", "Reload", "Headered"}
+HeavyShapeAfterQ == {"AuthCheck:event"}
+MutsShapeQ == {"Redact", "Reload"}
+TypesShape == {"create", "member", "message"}
+TypesShapeMore == {"create", "member", "member_tpi", "power_levels", "join_rules", "redaction", "message"}
 Heavy8 == {"VerifySignatures", "AuthCheck:event", "AuthCheck:provider", "AddToProvider", "Resolve:new:both", "Resolve:direct:both",
            "Resolve:checkstate:state"}
 VersionsFourQ == {"2", "5", "12", "org.matrix.msc4014"}
@@ -94,8 +109,14 @@ FieldsC(v, t) ==
       [] FieldSet = "full" -> Fields(v, t) \ (DupFields \ EdgeDup)     \* every field; of the duplicated keys a selection
       [] OTHER -> Fields(v, t)                                         \* "all"
 
+\* the cross-version room-ID-shape dimension: every place a room ID is written at (the key itself and, with
+\* FieldSet "all", a second occurrence of the key before / after the well-formed one) x the shapes foreign to v
+ShapeFaults(v, t) ==
+    {Fault(f, c) : f \in {g \in FieldsC(v, t) : g.grp = "room_id"}, c \in CrossShapeClasses(v, t)}
+
 SingleFaults(v, t) ==
     IF Depth = "none" THEN {}
+    ELSE IF Depth = "xshape" THEN ShapeFaults(v, t)
     ELSE UNION {{Fault(f, c) : c \in ClassesOf(f.kind, Depth)} : f \in FieldsC(v, t)}
 
 \* double faults: one identifier / structure field together with a second field, core classes
@@ -111,7 +132,7 @@ PairClasses(kind) == CASE kind \in {"room", "user", "event"} -> {"missing", "emp
 
 InitEvent1 ==
     \E v \in Versions, t \in TypesC :
-    \E f \in SingleFaults(v, t) \cup (IF Depth = "extra" THEN {} ELSE {NoFault}) :
+    \E f \in SingleFaults(v, t) \cup (IF Depth \in {"extra", "xshape"} THEN {} ELSE {NoFault}) :
        subject = [fam |-> "event", ver |-> v, type |-> t, f1 |-> f, f2 |-> NoFault]
 
 InitEvent2 ==
@@ -121,6 +142,14 @@ InitEvent2 ==
        /\ fb.path # PairA[i].path
        /\ (\A j \in 1..Len(PairA) : PairA[j].path = fb.path => j > i)      \* each unordered pair once
        /\ subject = [fam |-> "event", ver |-> v, type |-> t, f1 |-> Fault(PairA[i], c1), f2 |-> Fault(fb, c2)]
+
+\* a room ID of the other family's shape together with a second faulty field (core classes): the checks that run
+\* before / after the room ID is looked at see something unusual too
+InitEvent2X ==
+    \E v \in Versions, t \in TypesC :
+    \E fb \in PairB(t), c1 \in CrossShapeClasses(v, t) :
+    \E c2 \in PairClasses(fb.kind) :
+       subject = [fam |-> "event", ver |-> v, type |-> t, f1 |-> Fault(PairA[1], c1), f2 |-> Fault(fb, c2)]
 
 \* ---- raw family: inputs that are not events ------------------------------------------------
 DocOnly == {"empty_doc", "space", "truncated", "minus", "minus_in", "lone_escape", "unicode_trunc", "unicode_trunc_in",
@@ -207,13 +236,19 @@ InitJoin ==
        \/ \E sj \in SendJoinVariants :
              subject = [fam |-> "join", ver |-> v, type |-> "join", f1 |-> NoFault,
                         f2 |-> [path |-> sj[1], kind |-> "json", grp |-> "x", cls |-> sj[2]], op |-> "Body:PerformJoin"]
+       \* the room that the send_join answer describes is built around a create event whose room ID has the shape of
+       \* the other family of room versions
+       \/ \E c \in CrossShapeClasses(v, "create") :
+             subject = [fam |-> "join", ver |-> v, type |-> "join", f1 |-> NoFault,
+                        f2 |-> [path |-> "none", kind |-> "json", grp |-> "x", cls |-> "room:top/room_id=" \o c], op |-> "Body:PerformJoin"]
 
-IsEventFam == Family \in {"event1", "event2"}
+IsEventFam == Family \in {"event1", "event2", "event2x"}
 
 Init ==
     /\ st = "raw" /\ hist = <<>>
     /\ CASE Family = "event1" -> InitEvent1
          [] Family = "event2" -> InitEvent2
+         [] Family = "event2x" -> InitEvent2X
          [] Family = "raw" -> InitRaw
          [] Family = "rawevent" -> InitRawEvent
          [] Family = "join" -> InitJoin
@@ -245,6 +280,21 @@ NextRaw == Len(hist) = 0 /\ RawCall(subject.op)
 
 Next == IF IsEventFam THEN NextEvent ELSE NextRaw
 Spec == Init /\ [][Next]_vars
+
+\* ---- sanity of the cross-shape dimension ------------------------------------------------------
+\* The faulty room ID never has the shape of the subject's own family - except on the create event of a family
+\* whose create events carry no room ID at all - and it sits where a room ID is written.
+SubjType == IF subject.fam = "raw" THEN subject.f2.path ELSE subject.type
+ShapeIsForeign ==
+    (Depth = "xshape" \/ Family = "event2x") =>
+        /\ subject.f1.grp = "room_id"
+        /\ \/ subject.f1.cls \in ShapeClasses(OtherShape(RoomIDShape(subject.ver)))
+           \/ DomainlessRoomIDs(subject.ver) /\ SubjType = "create"
+        /\ subject.f1.cls \in ShapeStrings
+\* every version belongs to exactly one family and is offered at least one member of the other family's shape
+ASSUME \A v \in AllVersions : \A t \in Types :
+          /\ CrossShapeClasses(v, t) # {}
+          /\ (t # "create" => CrossShapeClasses(v, t) \cap ShapeClasses(RoomIDShape(v)) = {})
 
 \* ---- emission ------------------------------------------------------------------------------
 \* A pipeline is emitted once: in the state where its last operation has just run.  The two branches of a parse
